@@ -495,7 +495,7 @@ def main():
             obligation_unit='one per Verus verification condition group (function, loop, lemma, spec termination) as counted by Verus "verified/errors"; Kani: one per CBMC check of a complete harness',
             functions_under_contract=fns,
             units=[dict(unit=r['unit'], status=r['status'], verus_verified=r['verus_verified'], verus_errors=r['verus_errors'], smt_ms=r['smt_ms'],
-                        wall_s=round(r['wall'], 2), vacuity_twins=r['twins']) for r in results],
+                        wall_s=round(r['wall'], 2), vacuity_twins=dict(r['twins'], inconclusive=r.get('twins_inconclusive', []))) for r in results],
             kani=[{k: v for k, v in kr.items() if k not in ('output',)} for kr in kani_res],
             bounded=[dict(harness=k['harness'], bound=k.get('bound')) for k in kani_res if not k.get('complete')]
                     + ([dict(harness='probe catalogue units/probes.json replayed against the real crate (conformance of assumed contracts; not a proof)', bound='%d concrete scenarios (generator-based sweeps count as one)' % probes_run)] if probes_run else []),
